@@ -228,7 +228,12 @@ func main() {
 				for wi, list := range [][]wire{rev, dup} {
 					encW, errW := rlp.EncodeToBytes(list)
 					var decW pos.Validators
-					if errW == nil && rlp.DecodeBytes(encW, &decW) == nil {
+					var derr error
+					if pv := core.Catch(func() { derr = rlp.DecodeBytes(encW, &decW) }); pv != nil {
+						c.Violation("rlp-decode-panic", seq, "decoding a wire list of the valid set %v panicked: %v", ref, pv)
+						break
+					}
+					if errW == nil && derr == nil {
 						if !compare(c, []string{"rlp-decoded-from-reversed-wire-list", "rlp-decoded-from-wire-list-naming-a-validator-twice"}[wi], seq, &decW, ref) {
 							break
 						}
